@@ -556,6 +556,7 @@ func GenFlattenCase(d *D, cfg BundleCfg) *FlattenCase {
 			if g.Pct(50) {
 				op["parameters"] = A{O{"name": "pb", "in": "body", "schema": g.schema(a, 1, true)}}
 			}
+			g.opMeta(op)
 			ad["pathItems"] = O{"pi": O{"get": op}}
 		}
 		b.Aux[a] = ad
@@ -588,7 +589,7 @@ func GenFlattenCase(d *D, cfg BundleCfg) *FlattenCase {
 	}
 	paths := O{}
 	// "/a-b" and "/a_b" differ only by a character that name mangling drops
-	pathPool := []string{"/pets", "/pets/{id}", "/", "/a-b", "/a_b"}
+	pathPool := []string{"/pets", "/pets/{id}", "/", "/a-b", "/a_b", "/a/b"}
 	if g.layer >= 1 {
 		pathPool = append(pathPool, "/a b/{x}")
 	}
@@ -613,6 +614,7 @@ func GenFlattenCase(d *D, cfg BundleCfg) *FlattenCase {
 			if g.Pct(60) {
 				op["operationId"] = fmt.Sprintf("op%d%s", i, m)
 			}
+			g.opMeta(op)
 			if g.Pct(60) {
 				var ps A
 				hasBody := pathHasBody
@@ -624,7 +626,11 @@ func GenFlattenCase(d *D, cfg BundleCfg) *FlattenCase {
 				op["parameters"] = ps
 			}
 			rs := O{}
-			for _, code := range []string{"default", "200", "404"} {
+			codes := []string{"default", "200", "404"}
+			if g.Pct(20) {
+				codes = append(codes, g.Pick([]string{"299", "499", "599"})) // codes without a standard status text
+			}
+			for _, code := range codes {
 				if !g.Pct(50) {
 					continue
 				}
@@ -682,6 +688,21 @@ func GenFlattenCase(d *D, cfg BundleCfg) *FlattenCase {
 		g.addAnonPointers(root)
 	}
 	return &FlattenCase{Bundle: *b, Opts: g.opts, GenLabels: g.LabelList()}
+}
+
+// opMeta sometimes gives an operation its own media types / security requirement, drawn from
+// pools that are larger than what any single document uses (so that one operation may be the only
+// user of a value).
+func (g *bgen) opMeta(op O) {
+	if g.Pct(15) {
+		op["consumes"] = A{g.Pick([]string{"application/json", "text/plain", "application/xml", "text/csv"})}
+	}
+	if g.Pct(15) {
+		op["produces"] = A{g.Pick([]string{"application/json", "text/plain", "application/xml", "text/csv"})}
+	}
+	if g.Pct(10) {
+		op["security"] = A{O{g.Pick([]string{"sa", "sb", "sc"}): A{}}}
+	}
 }
 
 func (g *bgen) auxWith(section string) []string {
@@ -754,6 +775,9 @@ func (g *bgen) addAnonPointers(root O) {
 		}
 		if a := Arr(s["allOf"]); len(a) > 0 {
 			tgts = append(tgts, []string{"definitions", d, "allOf", fmt.Sprint(len(a) - 1)})
+		}
+		for _, k := range SortedKeys(Obj(s["definitions"])) {
+			tgts = append(tgts, []string{"definitions", d, "definitions", k})
 		}
 	}
 	if !g.opts.RemoveUnused && !g.cfg.NoSharedSchemaPtrs {
